@@ -1997,6 +1997,20 @@ impl<'a> Run<'a> {
                     if ur.to_vec().ok() != Some(bytes.clone()) {
                         self.violate("C12", "twin-differs", format!("slot {idx}: unverified reload re-serializes differently"));
                     }
+                    // the unverified API prints what the verified API prints (two unverified
+                    // twins can be wrong the same way)
+                    for i in 0..u.block_count() {
+                        let a = u.print_block_source(i).map_err(|e| format!("{e:?}"));
+                        let b = reloaded.print_block_source(i).map_err(|e| format!("{e:?}"));
+                        self.stats.oracle_evals += 1;
+                        if a != b {
+                            self.violate(
+                                "C12",
+                                "twin-differs",
+                                format!("slot {idx} block {i}: UnverifiedBiscuit::print_block_source gives {:?}, Biscuit::print_block_source {:?}", a, b),
+                            );
+                        }
+                    }
                 }
                 match u.clone().verify(root) {
                     Ok(b) => b,
